@@ -20,6 +20,8 @@ LAYOUTS = {
     "a+chr2": ([("2", 1, 3)], []),
     "b+chr2": ([], [("2", 2, 4)]),
     "both+chr2": ([("2", 1, 3)], [("2", 2, 4)]),
+    # two separated rows on the later chromosome, starting below the first chromosome's largest end
+    "both+chr2pair": ([("2", 0, 1), ("2", 2, 4)], [("2", 0, 3), ("2", 3, 4)]),
 }
 
 MOTIFS = {  # laid out left to right; (relative intervals, width) in units
@@ -45,9 +47,9 @@ def describe(tier):
         "state = canonical (table[, table], layout, columns); non-trivial = the operation changed its input "
         "(something subtracted / intersected / merged / cut / dropped)",
         "bound": {
-            "pairs": "<=2 x <=2 intervals over 0..4, 4 layouts with gene+value columns, 2 layouts bare"
+            "pairs": "<=2 x <=2 intervals over 0..4, 5 layouts with gene+value columns, 2 layouts bare"
             + ("; plus <=2 x <=3 over 0..6, layouts single/both+chr2" if thorough else ""),
-            "unary": "merge bp -2..2; resize bp -3..3 x sizes {none,4,6}; subdivide avg 1..3 x min 0..3 on every table",
+            "unary": "merge bp -2..2; resize bp -3..3 x sizes {none,4,6}; subdivide avg 1..3 x min 0..3 on every table; plus every (table on chr1) x (table on chr2), <=2 intervals over 0..4 each" + ("" if thorough else " with the reduced option set (merge 0, resize +-1, subdivide 2/0)"),
             "subdivide_grid": "length 1..40 x avg 1..12 x min 0..6" if not thorough else "length 1..120 x avg 1..16 x min 0..8",
             "composed": "a: <=2 motifs at scale 1, 1 motif at scales 1000/250000; b: <=1 motif x shift {0,1,3}"
             if not thorough
@@ -72,6 +74,11 @@ def cases(tier):
         for layout in ("single", "a+chr2"):
             for a in tabs4:
                 yield {"check": "unary", "a": a, "layout": layout, "cols": cols}
+    # a full product over two chromosomes: every table on chr1 x every table on chr2 (state carried across the boundary shows)
+    for a in tabs4:
+        for a2 in tabs4:
+            if a and a2:
+                yield {"check": "unary", "a": a, "a2": a2, "layout": "two-chromosomes", "cols": "gv", "light": not thorough}
     for length in range(1, 121 if thorough else 41):
         yield {"check": "subdivide-grid", "length": length, "avgmax": 16 if thorough else 12, "minmax": 8 if thorough else 6}
     for cols, layouts in (("gv", list(LAYOUTS)), ("", ["single", "both+chr2"])):
@@ -384,11 +391,16 @@ def check_subdivide(ctx, a, a3, avg, mn, sub=None):
 
 
 def run_unary(case, ctx):
-    ea, _ = LAYOUTS[case["layout"]]
+    if "a2" in case:
+        ea = [("2", s, e) for s, e in case["a2"]]
+    else:
+        ea, _ = LAYOUTS[case["layout"]]
     a_rows = [("1", s, e) for s, e in case["a"]] + ea
     a, a_full = make_ga(a_rows, case["cols"])
-    changed = check_unary_ops(ctx, a, a_full)
-    ctx.state(("unary", case["a"], case["layout"], case["cols"]), nontrivial=changed)
+    changed = check_unary_ops(ctx, a, a_full, light=bool(case.get("light")))
+    ctx.state(("unary", case["a"], case.get("a2"), case["layout"], case["cols"]), nontrivial=changed)
+    if "a2" in case:
+        ctx.stratum("two-chromosomes: " + shape_of([r for r in a_full if r[0] == "1"]) + " | " + shape_of([r for r in a_full if r[0] == "2"]))
     ctx.stratum("a-" + shape_of(a_full))
     ctx.sample("unary", {"a": a_rows, "cols": case["cols"]})
 
